@@ -473,7 +473,13 @@ class DepAnalysis:
         return out
 
     def block(self, stmts: List[ast.stmt], signs: frozenset, ctrl: Set[Dep], ground: Set[str]) -> None:
-        for s in stmts:
+        for k, s in enumerate(stmts):
+            # `if c: continue / break / return` without else: the rest of the block runs under `not c` -- the same thing as an else branch
+            if isinstance(s, ast.If) and not s.orelse and s.body and isinstance(s.body[-1], (ast.Continue, ast.Break, ast.Return)) \
+                    and self.is_status_only(s.body) is None and k + 1 < len(stmts):
+                rest = list(stmts[k + 1:])
+                self.stmt(ast.copy_location(ast.If(test=s.test, body=s.body, orelse=rest), s), signs, ctrl, ground)
+                return
             self.stmt(s, signs, ctrl, ground)
 
     def stmt(self, s: ast.stmt, signs: frozenset, ctrl: Set[Dep], ground: Set[str]) -> None:
@@ -548,10 +554,15 @@ class DepAnalysis:
                     sg_t, sg_f = signs & r[0], signs & r[1]
                     cond_reads = set()
             g_rows = self.ground_rows_of(s.test)
-            if g_rows:
-                cond_reads = {(c, "GROUND", sg, row) if row in g_rows else (c, b, sg, row) for c, b, sg, row in cond_reads}
+            # `if not (a.MIN == a.MAX and ...): <exit>` establishes the groundness on the other branch
+            g_rows_else: Set[str] = set()
+            if isinstance(s.test, ast.UnaryOp) and isinstance(s.test.op, ast.Not):
+                g_rows_else = self.ground_rows_of(s.test.operand)
+            if g_rows or g_rows_else:
+                gr = g_rows | g_rows_else
+                cond_reads = {(c, "GROUND", sg, row) if row in gr else (c, b, sg, row) for c, b, sg, row in cond_reads}
             self.block(s.body, sg_t, ctrl | cond_reads, ground | g_rows)
-            self.block(s.orelse, sg_f, ctrl | cond_reads, ground)
+            self.block(s.orelse, sg_f, ctrl | cond_reads, ground | g_rows_else)
             return
         if isinstance(s, ast.For):
             it = s.iter
@@ -1216,14 +1227,31 @@ def rule_sole_candidate(ctx: Ctx, prog: Program) -> None:
         for loop in [x for x in fn.node.body if isinstance(x, ast.For)]:
             idx_names = {x.id for x in ast.walk(loop.target) if isinstance(x, ast.Name)}
             found = None
+            # candidate blocks: the body of `if T:` -- or what follows `if not T: continue` in the same block
+            cands: List[Tuple[ast.If, ast.Compare, List[ast.stmt]]] = []
             for node in ast.walk(loop):
-                if not (isinstance(node, ast.If) and isinstance(node.test, ast.Compare) and len(node.test.ops) == 1):
-                    continue
-                ups = [_unit_step(s_)[0] for s_ in node.body if _unit_step(s_) and _unit_step(s_)[1] == 1]
-                recs = [s_.targets[0].id for s_ in node.body if isinstance(s_, ast.Assign) and len(s_.targets) == 1 and isinstance(s_.targets[0], ast.Name)
+                for blk in [getattr(node, a_, None) for a_ in ("body", "orelse")]:
+                    if not (isinstance(blk, list) and blk and isinstance(blk[0], ast.stmt)):
+                        continue
+                    for k_, st_ in enumerate(blk):
+                        if not isinstance(st_, ast.If):
+                            continue
+                        t_ = st_.test
+                        neg = False
+                        while isinstance(t_, ast.UnaryOp) and isinstance(t_.op, ast.Not):
+                            t_, neg = t_.operand, not neg
+                        if not (isinstance(t_, ast.Compare) and len(t_.ops) == 1):
+                            continue
+                        if not neg:
+                            cands.append((st_, t_, st_.body))
+                        elif not st_.orelse and len(st_.body) == 1 and isinstance(st_.body[0], ast.Continue):
+                            cands.append((st_, t_, blk[k_ + 1:]))
+            for node, cmp_, stmts_ in cands:
+                ups = [_unit_step(s_)[0] for s_ in stmts_ if _unit_step(s_) and _unit_step(s_)[1] == 1]
+                recs = [s_.targets[0].id for s_ in stmts_ if isinstance(s_, ast.Assign) and len(s_.targets) == 1 and isinstance(s_.targets[0], ast.Name)
                         and isinstance(s_.value, ast.Name) and s_.value.id in idx_names]
                 if len(ups) == 1 and len(recs) == 1:
-                    l_, r_ = node.test.left, node.test.comparators[0]
+                    l_, r_ = cmp_.left, cmp_.comparators[0]
                     l_is = any(isinstance(x, ast.Name) and x.id in idx_names for x in ast.walk(l_))
                     r_is = any(isinstance(x, ast.Name) and x.id in idx_names for x in ast.walk(r_))
                     if l_is != r_is:
